@@ -71,3 +71,7 @@ Proof.
   apply int_fits with (k := 53); try lia.
   unfold GEN_INT_MAX_COERCIBLE_TO_FLOAT in H. change (2 ^ 53) with 9007199254740992. lia.
 Qed.
+
+(* the update of the cached row dtype in TypeBlocks.append, read from the source, is the model's step *)
+Lemma gen_grown_step_eq acc d : gen_grown_step acc d = grown_step acc d.
+Proof. unfold gen_grown_step, grown_step. destruct (dtype_eqb d acc); reflexivity. Qed.
